@@ -54,7 +54,7 @@ def load_one(lit: LineIterator) -> dict:
             line = next(lit)
         except StopIteration:
             break
-        if len(line) > 1:
+        if line.strip():
             words = line.split()
             if words[0] == "@<TRIPOS>MOLECULE":
                 # Found another molecule; go one line back and break
